@@ -15,6 +15,9 @@ import Gama.Lemmas.SymCholPSD
 import Gama.Lemmas.MatVecGuards
 import Gama.Lemmas.SymInvertPD
 import Gama.Lemmas.SymCholReal
+import Gama.Lemmas.MatObj
+import Gama.Lemmas.MatObjInv
+import Gama.Gen.MatMembers
 namespace Gama.Props.C15
 open Gama Gama.MemRep Gama.MatVec
 
@@ -704,5 +707,102 @@ example : PosDef 2 sinvAEx := sinvAEx_posDef
 example : (∃ X, @symInvert ℚ (fieldScalar ℚ id) 2 sinvAEx = .ok X ∧ X 0 = 1 / 2 ∧ X 1 = -1 / 2 ∧ X 2 = 1) ∧
     (∀ t, t < 2 → ∀ st, symInvertState 2 (fun k => sinvAEx (k - 1)) t = .ok st → st.a 1 ≠ 0) :=
   ⟨symInvert_example, symInvert_example_pivots⟩
+
+/-! ## (A) Object histories of `Mat`: copies are independent of their source, whatever was done to
+either of them before (Model/MatObj.lean)
+
+A `Mat` object = its `MemRep` sub-object + every other data member that persists across calls
+(`row_`, `col_`, and the raw working pointer `pentry` of `invert()`), in a store of objects on the
+explicit heap.  The member list and the way `invert()` initialises `pentry` are regenerated from the
+headers on every run (`Gen/MatMembers.lean`). -/
+
+/-- the model carries exactly the persistent data members of `MemRep ⊂ MatVecBase ⊂ MatBase ⊂ Mat`,
+    and the copy operations of the three derived classes are the implicit memberwise ones (the model
+    copies `row_`, `col_`, `pentry` verbatim).  A NEW data member breaks this statement. -/
+theorem C15_members_modelled :
+    Gen.MatMembers.members.map (fun m => (m.1, m.2.1)) = MatObj.modelMembers ∧
+    Gen.MatMembers.implicitCopy = ["MatVecBase", "MatBase", "Mat"] := by decide
+
+/-- **Value semantics for every history.**  Any history of construct / copy-construct / assign
+    between objects of any sizes (`Mat(Mat&&)`, `operator=(Mat&&)` are these too) / `reset(r,c)` /
+    element write / `set_all` / `*=` / in-place `transpose()` / in-place `invert(tol)` / destroy over a
+    store of `Mat` objects, run from the empty heap with the `pentry` initialisation of the code under
+    test, either completes — and then EVERY object holds exactly the value (dimensions and elements)
+    that the same history yields on independent values, where `invert` is the pure Gauss–Jordan function
+    of the object's own elements; the ownership invariant and `size() = row_·col_` hold — or stops at the
+    same operation for the same reason (`BadRank`, `Singular`, a caller's precondition), never because a
+    block that is not allocated, or cells beyond a block, were touched. -/
+theorem C15_history_value_semantics {K : Type} [Scalar K] [Inhabited K] (ops : List (MatObj.Op K)) :
+    match MatObj.run Gen.MatMembers.pentryInit (MatObj.St.init : MatObj.St K) ops with
+    | .ok s => MatObj.MInv s ∧ MatObj.specRun (fun _ => none) ops = .ok (MatObj.val s)
+    | .error e => MatObj.specRun (fun _ => none) ops = .error e ∧ e ≠ .heapFault := by
+  have h := MatObj.run_refines ops (MatObj.St.init : MatObj.St K) MatObj.minv_init
+  rw [MatObj.val_init] at h
+  exact h
+
+/-- **Copies are independent of their source**, one operation from any reachable state: the
+    operation acts on the values like the value-level semantics, and NO object other than its target
+    changes its value — in particular `B.invert()` on a copy `B` of `A` (inverted before or not, of
+    equal or different size before the assignment) leaves `A` as it was. -/
+theorem C15_history_independent {K : Type} [Scalar K] [Inhabited K] {s s' : MatObj.St K}
+    (h : MatObj.MInv s) {op : MatObj.Op K}
+    (hs : MatObj.step Gen.MatMembers.pentryInit s op = .ok s') :
+    MatObj.MInv s' ∧ MatObj.spec (MatObj.val s) op = .ok (MatObj.val s') ∧
+    ∀ k, k ≠ op.target → MatObj.val s' k = MatObj.val s k :=
+  ⟨(MatObj.step_ok h hs).1, (MatObj.step_ok h hs).2, MatObj.step_frame h hs⟩
+
+/-- … and what `invert` leaves in the target is the two-sided inverse of what it held: in any
+    reachable state, over any ordered field, if `invert(tol)` (`0 ≤ tol`) completes on the object in
+    slot `i` holding the `N×N` elements `A`, the object afterwards holds `N×N` elements `X` with
+    `X·A = 1` and `A·X = 1` (row-major), and every other object is unchanged. -/
+theorem C15_history_invert_inverse {K : Type} [Field K] [LinearOrder K] [IsStrictOrderedRing K]
+    [Inhabited K] (sq : K → K) {s s' : MatObj.St K} (i : Nat) (tol : K) (htol : 0 ≤ tol)
+    (h : MatObj.MInv s)
+    (hs : (letI := fieldScalar K sq; MatObj.step Gen.MatMembers.pentryInit s (.invert i tol)) = .ok s') :
+    ∃ N A X, MatObj.val s i = some ⟨N, N, A⟩ ∧ MatObj.val s' i = some ⟨N, N, X⟩ ∧
+      X.length = N * N ∧
+      (∀ a j, a < N → j < N →
+        ∑ b ∈ Finset.range N, X.getD (a * N + b) 0 * A.getD (b * N + j) 0 = if a = j then 1 else 0) ∧
+      (∀ a j, a < N → j < N →
+        ∑ b ∈ Finset.range N, A.getD (a * N + b) 0 * X.getD (b * N + j) 0 = if a = j then 1 else 0) ∧
+      ∀ k, k ≠ i → MatObj.val s' k = MatObj.val s k := by
+  let _ := fieldScalar K sq
+  obtain ⟨_, hsp⟩ := MatObj.step_ok h hs
+  have hfr := MatObj.step_frame h hs
+  simp only [MatObj.spec] at hsp
+  cases hv : MatObj.val s i with
+  | none => simp [hv] at hsp
+  | some t =>
+    simp only [hv] at hsp
+    by_cases hsq : t.rows = t.cols
+    · simp only [hsq, ne_eq, not_true_eq_false, if_false] at hsp
+      cases hinv : MatObj.invertList t.cols tol t.data with
+      | error e => simp [hinv] at hsp
+      | ok X =>
+        simp only [hinv, Except.ok.injEq] at hsp
+        obtain ⟨h1, h2, h3⟩ := MatObj.invertList_inverse sq t.cols tol htol t.data X hinv
+        refine ⟨t.cols, t.data, X, ?_, ?_, h1, h2, h3, hfr⟩
+        · rcases t with ⟨r, c, d⟩; simp only at hsq; subst hsq; rfl
+        · rw [← hsp]; rcases t with ⟨r, c, d⟩; simp only at hsq; subst hsq; simp
+    · simp [hsq] at hsp
+
+/-- non-vacuity (ℚ, the code's `pentry = this->begin()`): `A = [2]`, `A.invert()`, `B = A`,
+    `B.invert()` completes; `A` keeps `[1/2]`, `B` holds `[2]`. -/
+example : MatObj.dataOf (MatObj.run .always MatObj.St.init MatObj.staleHistory) 0 = some [1 / 2] ∧
+    MatObj.dataOf (MatObj.run .always MatObj.St.init MatObj.staleHistory) 1 = some [2] ∧
+    MatObj.specDataOf (MatObj.specRun (fun _ => none) MatObj.staleHistory) 0 = some [1 / 2] ∧
+    MatObj.specDataOf (MatObj.specRun (fun _ => none) MatObj.staleHistory) 1 = some [2] := by
+  decide +kernel
+
+/-- **The variant with a cached address violates the invariant**: with
+    `if (pentry == nullptr) pentry = this->begin();` the copy `B` of the inverted `A` inherits `A`'s
+    block address; `B.invert()` eliminates on `A`'s storage — `B` comes back unchanged (`[1/2]`, the
+    value semantics says `[2]`) and the SOURCE `A` is overwritten (`[2]`, must stay `[1/2]`). -/
+example : MatObj.dataOf (MatObj.run .ifNull MatObj.St.init MatObj.staleHistory) 0 = some [2] ∧
+    MatObj.dataOf (MatObj.run .ifNull MatObj.St.init MatObj.staleHistory) 1 = some [1 / 2] ∧
+    MatObj.dataOf (MatObj.run .ifNull MatObj.St.init MatObj.staleHistory) 0 ≠
+      MatObj.specDataOf (MatObj.specRun (fun _ => none) MatObj.staleHistory) 0 := by
+  decide +kernel
+
 
 end Gama.Props.C15
